@@ -453,13 +453,29 @@ def alphabet(variant, small):
     return [("kd",), ("ku",)] + [("c", b, x, y) for b in (1, 3, 2) for x in xs for y in ys]
 
 
-def enumerate_sequences(ctx, variant, tab, letters, maxlen, tag):
-    """ALL sequences over `letters` of length <= maxlen, once from the fresh dialog and once with the modifier already held."""
+def _picks(*cells):
+    return (("kd",),) + tuple(("c", 1, float(f), float(o)) for f, o in cells)
+
+
+# pre-populated selections (modifier held): orders repeat NON-adjacently in frequency order ([0,1,0], [2,0,2], [1,0,1,0]), clicked
+# out of frequency order, so that removing "the entry with that order" instead of "entry i" is observable
+POPULATED = {
+    "SSI": [_picks((7.0, 0), (3.0, 0), (4.0, 1)), _picks((8.25, 2), (7.0, 0), (5.0, 2)), _picks((4.0, 1), (7.0, 0), (1.5, 1), (3.0, 0))],
+    # FDD: (frequency, y); the same line picked twice, lines picked in descending frequency
+    "FDD": [_picks((3.0, 0), (0.75, 0), (3.0, 0)), _picks((4.5, 0), (2.25, 0), (0.75, 0), (2.25, 0))],
+}
+POPULATED["pLSCF"] = POPULATED["SSI"]
+
+
+def enumerate_sequences(ctx, variant, tab, letters, maxlen, tag, maxlen_populated=None):
+    """ALL sequences over `letters` of length <= maxlen, from the fresh dialog and with the modifier already held; and all
+    sequences of length <= maxlen_populated from each pre-populated selection of POPULATED."""
     store = Store(ctx, variant, tab, tag)
     algo = fake_algo("FDD" if variant == "FDD" else "SSI", tab)
     n = 0
-    for prefix in ((), (("kd",),)):
-        for L in range(maxlen + 1):
+    mp = maxlen - 1 if maxlen_populated is None else maxlen_populated
+    for prefix, ml in [((), maxlen), ((("kd",),), maxlen)] + [(pf, mp) for pf in POPULATED[variant]]:
+        for L in range(ml + 1):
             for seq in itertools.product(letters, repeat=L):
                 script = prefix + seq
                 rec, exc, result = drive(algo, variant, script, enum=(n % 2 == 1))
@@ -468,8 +484,76 @@ def enumerate_sequences(ctx, variant, tab, letters, maxlen, tag):
                 ctx.count((variant, tag, script), nontrivial=any(len(s[1]) > 0 for s in rec))
                 if fin is None and len(ctx.failures) > 40:
                     return store
-    ctx.hist("enumerated sequences", "%s %s len<=%d x %d letters x {fresh, modifier held}: %d" % (variant, tag, maxlen, len(letters), n))
+    ctx.hist("enumerated sequences", "%s %s len<=%d x %d letters x {fresh, modifier held} + len<=%d x %d pre-populated selections: %d"
+             % (variant, tag, maxlen, len(letters), mp, len(POPULATED[variant]), n))
     return store
+
+
+def structured_base(rng, variant):
+    """A table (or FDD grid) and k = 3..6 picks whose orders REPEAT NON-ADJACENTLY in frequency order (e.g. orders [2,4,2]);
+    in about a third of the bases the same frequency value also occurs at two different orders.  Returns (table, picks)
+    with picks = [(frequency, order)] sorted by frequency."""
+    k = rng.randint(3, 6)
+    if variant == "FDD":
+        n = rng.randint(5, 12)
+        grid = sorted(rng.sample(range(1, 160), n))
+        if rng.random() < 0.2:
+            rng.shuffle(grid)  # malformed: grid not ascending, line index not monotone in frequency
+        grid = [g / 8.0 for g in grid]
+        lines = sorted(rng.choice(range(n)) for _ in range(k))  # with repetitions: the same line picked twice
+        return grid, sorted((grid[i], i) for i in lines)
+    ncol = rng.randint(2, 5)
+    while True:
+        pat = [rng.randrange(ncol) for _ in range(k)]
+        if all(pat[i] != pat[i + 1] for i in range(k - 1)) and len(set(pat)) < k:
+            break
+    vals = sorted(rng.sample(range(8, 320), k))
+    if rng.random() < 0.35:
+        j = rng.randrange(k - 1)
+        vals[j + 1] = vals[j]  # the same frequency at two different orders (adjacent orders of the pattern differ)
+    freqs = [v / 8.0 for v in vals]
+    per_col = [[f for f, o in zip(freqs, pat) if o == c] for c in range(ncol)]
+    nrow = max(len(c) for c in per_col) + rng.randint(1, 2)
+    if nrow == ncol:
+        nrow += 1
+    fill = iter(rng.sample([v for v in range(330, 600)], nrow * ncol))
+    A = np.full((nrow, ncol), NAN)
+    for c in range(ncol):
+        rows = rng.sample(range(nrow), len(per_col[c]))
+        for r, f in zip(rows, per_col[c]):
+            A[r, c] = f
+        for r in range(nrow):
+            if np.isnan(A[r, c]) and rng.random() < 0.6:
+                A[r, c] = next(fill) / 8.0
+    return A, list(zip(freqs, pat))
+
+
+def structured_histories(rng, variant, picks, table):
+    """modifier held, the picks in a random click order, then EVERY single deselect-nearest (one per selected entry, x at
+    or near it) and deselect-one, each followed by more picks / deselections."""
+    yoff = lambda: rng.choice([0.0, 0.25, -0.25, 0.375])
+    def pick(f, o):
+        return ("c", 1, float(f), float(o) + yoff() if variant != "FDD" else float(rng.randint(-30, 3)))
+    order = list(picks)
+    rng.shuffle(order)
+    base = (("kd",),) + tuple(pick(f, o) for f, o in order)
+    out = []
+    for j, (f, o) in enumerate(picks):
+        eps = rng.choice([0.0, 0.0, 1.0 / 32, -1.0 / 32])
+        h = base + (("c", 2, float(f) + eps, float(rng.randint(-2, 6))),)
+        r = rng.random()
+        if r < 0.35:  # pick it again, then deselect-nearest another entry
+            g = rng.choice(picks)
+            h += (pick(f, o), ("c", 2, float(g[0]), 0.0))
+        elif r < 0.6:
+            g = rng.choice(picks)
+            h += (("c", 2, float(g[0]) + rng.choice([0.0, 0.0625]), 1.0), ("c", 3, 0.0, 0.0))
+        elif r < 0.75:
+            h += (("ku",), ("c", 2, float(picks[0][0]), 0.0), ("kd",), ("c", 2, float(picks[-1][0]), 0.0))
+        out.append(h)
+    out.append(base + (("c", 3, float(picks[0][0]), 0.0), ("c", 2, float(picks[len(picks) // 2][0]), 0.0), pick(*picks[0])))
+    out.append(base + (("co", 3), ("c", 2, float(picks[-1][0]) + 100.0, 0.0), ("c", 2, -50.0, 0.0)))
+    return out
 
 
 def dy(rng, lo, hi, den=8):
@@ -762,8 +846,34 @@ def _run(ctx):
                 ("pLSCF", ENUM_SSI, alphabet("pLSCF", False), 3, "full"), ("pLSCF", ENUM_SSI, alphabet("pLSCF", True), 4, "small"),
                 ("FDD", ENUM_FDD, alphabet("FDD", False), 3, "full"), ("FDD", ENUM_FDD, alphabet("FDD", True), 4, "small")]
     for variant, tab, letters, maxlen, tag in plan:
-        stores.append(enumerate_sequences(ctx, variant, tab, letters, maxlen, tag))
+        mp = maxlen - 1 if (ctx.quick() or tag == "small") else maxlen
+        stores.append(enumerate_sequences(ctx, variant, tab, letters, maxlen, tag, maxlen_populated=mp))
         ctx.sample(dict(variant=variant, table=jsonable(tab), alphabet=[list(a) for a in letters], maxlen=maxlen))
+
+    # ---- 2b. structured stream: selections of 3..6 entries whose orders repeat non-adjacently in frequency order (and equal
+    #          frequencies at different orders), then every single deselect-nearest / deselect-one, then more picks
+    nstruct = 0
+    for variant in ("SSI", "pLSCF", "FDD"):
+        for t in range(ctx.n(30, 150) if variant != "FDD" else ctx.n(20, 100)):
+            table, picks = structured_base(rng, variant)
+            if variant == "FDD":
+                st = Store(ctx, "FDD", table, "structured")
+                algo = fake_algo("FDD", table)
+            else:
+                st = Store(ctx, variant, table, "structured", shape=table.shape)
+                inject(algs[variant], table)
+            stores.append(st)
+            ctx.hist("structured: orders in frequency order", " ".join(str(o) for _, o in picks) if variant != "FDD" else "FDD k=%d" % len(picks))
+            for i, script in enumerate(structured_histories(rng, variant, picks, table)):
+                if variant == "FDD":
+                    rec, exc, result = drive(algo, "FDD", script, enum=bool(i % 2))
+                    st.add_trace(script, rec, result)
+                else:
+                    handover(ctx, st, ss, variant, variant, script, rng.choice([None, 1.0 / 64, 0.0]), hmeta, enum=bool(i % 2))
+                    rec = _SESSION["rec"] or []
+                ctx.count(dict(v=variant, structured=True, table=jsonable(st.T.raw), s=script), nontrivial=any(len(x[1]) > 0 for x in rec))
+                nstruct += 1
+    ctx.extra["structured_histories"] = nstruct
 
     # ---- 3. random sequences on random tables, hand-over through the real classes (SSI, pLSCF); FDD on random grids
     ntab = ctx.n(60, 400)
